@@ -33,10 +33,19 @@ var (
 
 func c01Acceptable(err error) bool { return err == nil || err == c01ErrOK }
 
-//verif:entry native tier=quick,thorough float=mono steps=2000000 cover=rejected,admitted,panicked,ctxdone,fallback
-//verif:doc accounting: real NewBreaker(); window preloaded with F in {0, 30} failures in the current bucket (so both admission outcomes occur, the random draw being arbitrary); entry point one of the 10 Do*/Allow* methods; request outcome one of nil / acceptable error / unacceptable error / panic; fallback present or absent (where the entry point has one); context done or not (Ctx variants); Allow followed by Accept or Reject.
+//verif:entry native tier=quick,thorough float=mono steps=2000000 cover=rejected,admitted,panicked,ctxdone,fallback,packagelevel
+//verif:doc accounting: real NewBreaker(); window preloaded with F in {0, 30} failures in the current bucket (so both admission outcomes occur, the random draw being arbitrary); entry point one of the 10 Do*/Allow* methods of the breaker object, or the package-level helper of the same name (breakers.go registry); request outcome one of nil / acceptable error / unacceptable error / panic; fallback present or absent (where the entry point has one); context done or not (Ctx variants); Allow followed by Accept or Reject.
 func Verif_C01_Accounting() {
+	// the same entry points are reachable through the package-level helpers of breakers.go, which look
+	// the breaker up by name in the registry
+	viaPkg := rt.Bool("viaPackageLevelHelper")
+	const regName = "verif-registry"
 	brk := NewBreaker(WithName("verif")).(*circuitBreaker)
+	if viaPkg {
+		rt.Cover("packagelevel")
+		brk = GetBreaker(regName).(*circuitBreaker)
+		rt.Assert(GetBreaker(regName) == Breaker(brk), "the registry hands out one breaker per name")
+	}
 	gb := brk.throttle.(loggedThrottle).internalThrottle.(*googleBreaker)
 	rt.SetNow(rt.Now() + 1) // any instant after construction
 	if rt.Bool("preloadFailures") {
@@ -80,21 +89,53 @@ func Verif_C01_Accounting() {
 		defer func() { panicked = recover() }()
 		switch entry {
 		case 0:
-			err = brk.Do(req)
+			if viaPkg {
+				err = Do(regName, req)
+			} else {
+				err = brk.Do(req)
+			}
 		case 1:
-			err = brk.DoCtx(ctx, req)
+			if viaPkg {
+				err = DoCtx(ctx, regName, req)
+			} else {
+				err = brk.DoCtx(ctx, req)
+			}
 		case 2:
-			err = brk.DoWithAcceptable(req, c01Acceptable)
+			if viaPkg {
+				err = DoWithAcceptable(regName, req, c01Acceptable)
+			} else {
+				err = brk.DoWithAcceptable(req, c01Acceptable)
+			}
 		case 3:
-			err = brk.DoWithAcceptableCtx(ctx, req, c01Acceptable)
+			if viaPkg {
+				err = DoWithAcceptableCtx(ctx, regName, req, c01Acceptable)
+			} else {
+				err = brk.DoWithAcceptableCtx(ctx, req, c01Acceptable)
+			}
 		case 4:
-			err = brk.DoWithFallback(req, fallback)
+			if viaPkg {
+				err = DoWithFallback(regName, req, fallback)
+			} else {
+				err = brk.DoWithFallback(req, fallback)
+			}
 		case 5:
-			err = brk.DoWithFallbackCtx(ctx, req, fallback)
+			if viaPkg {
+				err = DoWithFallbackCtx(ctx, regName, req, fallback)
+			} else {
+				err = brk.DoWithFallbackCtx(ctx, req, fallback)
+			}
 		case 6:
-			err = brk.DoWithFallbackAcceptable(req, fallback, c01Acceptable)
+			if viaPkg {
+				err = DoWithFallbackAcceptable(regName, req, fallback, c01Acceptable)
+			} else {
+				err = brk.DoWithFallbackAcceptable(req, fallback, c01Acceptable)
+			}
 		case 7:
-			err = brk.DoWithFallbackAcceptableCtx(ctx, req, fallback, c01Acceptable)
+			if viaPkg {
+				err = DoWithFallbackAcceptableCtx(ctx, regName, req, fallback, c01Acceptable)
+			} else {
+				err = brk.DoWithFallbackAcceptableCtx(ctx, req, fallback, c01Acceptable)
+			}
 		case 8:
 			promise, err = brk.Allow()
 		case 9:
